@@ -43,22 +43,60 @@ var c41Addr6 = []string{"fd00::1", "fd00::2", "fd00:1::3", "fd00::9"}
 
 const c41SentinelPrefix = "VERIF-FLOW-OFFLOAD"
 
+// c41QoS indexes c41Shapes. The shapes sit on the boundaries of every clause of "needs per-packet processing":
+// DSCP marking with the smallest (0 = a real marking: the DSCP manager renders a rule for every value 0..63), a
+// middle and the largest value, one and two policies, an explicitly empty policy list; connection and packet-rate
+// limits of 1 and of a large value, on either direction; controls whose only non-zero fields are NOT limits (burst
+// without rate, bandwidth, peak rate / min burst), an all-zero controls object; and combinations.
 type c41QoS int
 
-const (
-	c41None c41QoS = iota
-	c41DSCP
-	c41ConnIn
-	c41ConnOut
-	c41RateIn
-	c41RateOut
-	c41BandwidthOnly
-	c41EmptyControls
-)
+type c41Shape struct {
+	name  string
+	needs bool // reference: DSCP marking or a connection or packet-rate limit
+	pols  func() []*proto.QoSPolicy
+	ctl   func() *proto.QoSControls
+}
 
-var c41QoSNames = []string{"none", "dscp", "conn-in", "conn-out", "pktrate-in", "pktrate-out", "bandwidth-only", "empty-controls"}
+func c41Pols(vals ...int32) func() []*proto.QoSPolicy {
+	return func() []*proto.QoSPolicy {
+		out := []*proto.QoSPolicy{}
+		for _, v := range vals {
+			out = append(out, &proto.QoSPolicy{Dscp: v})
+		}
+		return out
+	}
+}
 
-func (q c41QoS) needsHooks() bool { return q >= c41DSCP && q <= c41RateOut }
+var c41Shapes = []c41Shape{
+	{name: "none"},
+	{name: "dscp0", needs: true, pols: c41Pols(0)},
+	{name: "dscp20", needs: true, pols: c41Pols(20)},
+	{name: "dscp63", needs: true, pols: c41Pols(63)},
+	{name: "dscp0+46", needs: true, pols: c41Pols(0, 46)},
+	{name: "empty-policy-list", pols: c41Pols()},
+	{name: "conn-in1", needs: true, ctl: func() *proto.QoSControls { return &proto.QoSControls{IngressMaxConnections: 1} }},
+	{name: "conn-out-big", needs: true, ctl: func() *proto.QoSControls { return &proto.QoSControls{EgressMaxConnections: 1 << 40} }},
+	{name: "pktrate-in+burst", needs: true, ctl: func() *proto.QoSControls { return &proto.QoSControls{IngressPacketRate: 1000, IngressPacketBurst: 5} }},
+	{name: "pktrate-out1", needs: true, ctl: func() *proto.QoSControls { return &proto.QoSControls{EgressPacketRate: 1} }},
+	{name: "pktburst-without-rate", ctl: func() *proto.QoSControls { return &proto.QoSControls{IngressPacketBurst: 5, EgressPacketBurst: 5} }},
+	{name: "bandwidth-only", ctl: func() *proto.QoSControls {
+		return &proto.QoSControls{IngressBandwidth: 1000, EgressBandwidth: 1000, IngressBurst: 10, EgressBurst: 10, IngressPeakrate: 2000, EgressPeakrate: 2000, IngressMinburst: 1, EgressMinburst: 1}
+	}},
+	{name: "empty-controls", ctl: func() *proto.QoSControls { return &proto.QoSControls{} }},
+	{name: "dscp0+bandwidth", needs: true, pols: c41Pols(0), ctl: func() *proto.QoSControls { return &proto.QoSControls{IngressBandwidth: 1000} }},
+	{name: "bandwidth+conn-out1", needs: true, ctl: func() *proto.QoSControls { return &proto.QoSControls{EgressBandwidth: 1000, EgressMaxConnections: 1} }},
+}
+
+func c41ShapeIx(name string) c41QoS {
+	for i, sh := range c41Shapes {
+		if sh.name == name {
+			return c41QoS(i)
+		}
+	}
+	panic("unknown shape " + name)
+}
+
+func (q c41QoS) needsHooks() bool { return c41Shapes[q].needs }
 
 type c41EpState struct {
 	qos   c41QoS
@@ -69,7 +107,7 @@ func (e *c41EpState) String() string {
 	if e == nil {
 		return "-"
 	}
-	return fmt.Sprintf("%s%v", c41QoSNames[e.qos], e.addrs)
+	return fmt.Sprintf("%s%v", c41Shapes[e.qos].name, e.addrs)
 }
 
 type c41Cfg struct {
@@ -126,17 +164,18 @@ var c41AddrSets = [][]int{{0}, {1}, {0, 1}, {}}
 func c41Enabled(st *c41State, depth int) []c41Ev {
 	var evs []c41Ev
 	// w0: every QoS shape x every address set; w1: two shapes x {A},{B} (collides with w0 on both addresses)
-	for q := c41None; q <= c41EmptyControls; q++ {
+	for q := c41QoS(0); int(q) < len(c41Shapes); q++ {
 		for _, as := range c41AddrSets {
 			evs = append(evs, c41Ev{kind: "wep", id: 0, ep: c41EpState{q, as}})
 		}
 	}
-	for _, q := range []c41QoS{c41None, c41ConnIn} {
+	for _, q := range []c41QoS{c41ShapeIx("none"), c41ShapeIx("conn-in1"), c41ShapeIx("dscp0")} {
 		for _, as := range [][]int{{0}, {1}} {
 			evs = append(evs, c41Ev{kind: "wep", id: 1, ep: c41EpState{q, as}})
 		}
 	}
-	for _, q := range []c41QoS{c41None, c41DSCP} {
+	// host endpoints only have the DSCP clause
+	for _, q := range []c41QoS{c41ShapeIx("none"), c41ShapeIx("dscp0"), c41ShapeIx("dscp63"), c41ShapeIx("empty-policy-list")} {
 		for _, as := range [][]int{{0}, {2}, {0, 2}} {
 			evs = append(evs, c41Ev{kind: "hep", id: 0, ep: c41EpState{q, as}})
 		}
@@ -155,21 +194,12 @@ func (st *c41State) wepProto(e *c41EpState) *proto.WorkloadEndpoint {
 		w.Ipv4Nets = append(w.Ipv4Nets, c41Addr4[a]+"/32")
 		w.Ipv6Nets = append(w.Ipv6Nets, c41Addr6[a]+"/128")
 	}
-	switch e.qos {
-	case c41DSCP:
-		w.QosPolicies = []*proto.QoSPolicy{{Dscp: 20}}
-	case c41ConnIn:
-		w.QosControls = &proto.QoSControls{IngressMaxConnections: 10}
-	case c41ConnOut:
-		w.QosControls = &proto.QoSControls{EgressMaxConnections: 10}
-	case c41RateIn:
-		w.QosControls = &proto.QoSControls{IngressPacketRate: 1000, IngressPacketBurst: 5}
-	case c41RateOut:
-		w.QosControls = &proto.QoSControls{EgressPacketRate: 1000}
-	case c41BandwidthOnly:
-		w.QosControls = &proto.QoSControls{IngressBandwidth: 1000, EgressBandwidth: 1000, IngressBurst: 10}
-	case c41EmptyControls:
-		w.QosControls = &proto.QoSControls{}
+	sh := c41Shapes[e.qos]
+	if sh.pols != nil {
+		w.QosPolicies = sh.pols()
+	}
+	if sh.ctl != nil {
+		w.QosControls = sh.ctl()
 	}
 	return w
 }
@@ -180,8 +210,8 @@ func (st *c41State) hepProto(e *c41EpState) *proto.HostEndpoint {
 		h.ExpectedIpv4Addrs = append(h.ExpectedIpv4Addrs, c41Addr4[a])
 		h.ExpectedIpv6Addrs = append(h.ExpectedIpv6Addrs, c41Addr6[a])
 	}
-	if e.qos == c41DSCP {
-		h.QosPolicies = []*proto.QoSPolicy{{Dscp: 40}}
+	if sh := c41Shapes[e.qos]; sh.pols != nil {
+		h.QosPolicies = sh.pols()
 	}
 	return h
 }
@@ -631,7 +661,7 @@ func TestVerif_C41(t *testing.T) {
 	gomega.RegisterFailHandler(func(m string, _ ...int) { panic("gomega: " + m) })
 	vk.Run(t, "C41", func(c *vk.Ctx) {
 		c.Rule("state = (reference environment: QoS shape + address set of workload endpoints w0,w1 and host endpoint h0; manager's wepIPs/hepIPs/dirty; programmed members of the no-flow-offload set); " +
-			"transition = WorkloadEndpointUpdate (8 QoS shapes x address sets {A},{B},{A,B},{}), HostEndpointUpdate (DSCP on/off x {A},{C},{A,C}), removes (also of absent endpoints), and CompleteDeferredWork (after every event, or as a separate event in the batched system); " +
+			"transition = WorkloadEndpointUpdate (15 QoS shapes on the boundary of every clause: DSCP 0/20/63, two policies, empty policy list, connection limit 1 / 2^40, packet rate 1 / 1000+burst, burst without rate, bandwidth/peakrate only, all-zero controls, combinations x address sets {A},{B},{A,B},{}), HostEndpointUpdate (none / DSCP 0 / DSCP 63 / empty policy list x {A},{C},{A,C}), removes (also of absent endpoints), and CompleteDeferredWork (after every event, or as a separate event in the batched system); " +
 			"in every flushed state the rendered nft FORWARD chain is executed for 5 conntrack states x 12 (src,dst) address pairs with set membership = what the manager programmed; non-trivial = an address shared by two endpoints of which one needs hooks")
 		c.Assume("RELATED packets are treated like ESTABLISHED ones (Felix's 'established' = ct state RELATED,ESTABLISHED); the statement's 'not already established' is enforced for NEW, INVALID and UNTRACKED")
 		c.Assume("the 'flow offload @calico' statement is replaced by a sentinel log statement before the text is handed to nfsim (outside its vocabulary); all matches of the rule are interpreted by nfsim from the rendered text")
@@ -681,11 +711,11 @@ func TestVerif_C41(t *testing.T) {
 			}
 			c41RuleTable(c, ipv)
 		}
-		c.Sample(map[string]any{"system": "atomic-v4", "history": []string{"wep(w0,conn-in[0 1])", "wep(w1,conn-in[0])", "wep(w0,none[0 1])", "weprm(w1)"},
-			"meaning": "A shared by two limited endpoints; w0 loses its limit (A must stay, B must go); w1 removed (A must go)"})
-		hbfs.Explore(c, c41Spec(c41Cfg{ipv: 4}, "excl-atomic-v4-graph", c.Pick(4, 6), true))
+		c.Sample(map[string]any{"system": "atomic-v4", "history": []string{"wep(w0,dscp0[0 1])", "wep(w1,conn-in1[0])", "wep(w0,pktburst-without-rate[0 1])", "weprm(w1)"},
+			"meaning": "A shared by two limited endpoints; w0 (DSCP 0 = a marking) changes to controls that are not a limit (A must stay, B must go); w1 removed (A must go)"})
+		hbfs.Explore(c, c41Spec(c41Cfg{ipv: 4}, "excl-atomic-v4-graph", c.Pick(3, 6), true))
 		hbfs.Explore(c, c41Spec(c41Cfg{ipv: 4}, "excl-atomic-v4-tree", c.Pick(2, 3), false))
-		hbfs.Explore(c, c41Spec(c41Cfg{ipv: 4, batched: true}, "excl-batched-v4-graph", c.Pick(4, 6), true))
+		hbfs.Explore(c, c41Spec(c41Cfg{ipv: 4, batched: true}, "excl-batched-v4-graph", c.Pick(3, 5), true))
 		hbfs.Explore(c, c41Spec(c41Cfg{ipv: 6}, "excl-atomic-v6-graph", c.Pick(3, 5), true))
 	})
 }
